@@ -473,6 +473,11 @@ fn sig_for(v: &Value) -> Option<String> {
     if file == "from.rs" && msg.contains("unreachable") {
         return Some("c18-from-legacy-unreachable".into());
     }
+    let item = v["item"].as_str().unwrap_or("");
+    if file == "utils.rs" && msg.starts_with("expected") && (item.contains("dyn ") || item.contains("impl ")) && item.contains('+') {
+        // `where dyn A + B: Trait` built from a bare multi-bound trait-object field type does not parse
+        return Some("c18-where-clause-bare-bound-list-type".into());
+    }
     if msg.contains("Punctuated::push_value") || msg.contains("push_value") {
         return Some("c18-into-push-value".into());
     }
